@@ -149,6 +149,14 @@ Proof.
 Qed.
 Print Assumptions call_skeletons_as_modelled.
 
+(** fill_lookup_uniform.  The chunked layout decides "this image has a user-defined fill value" exactly as the
+    contiguous read and write paths do (regenerated condition texts): index-or-FAIL compared with FAIL. *)
+Theorem fill_lookup_uniform_across_layouts :
+  GRreadimage_q_conds = ["(at_index = GRfindattr(riid, 'FillValue')) != (-1)"%string] /\
+  GRsetchunk_q_conds = GRreadimage_q_conds /\ GRwriteimage_q_conds = GRreadimage_q_conds.
+Proof. exact fill_lookup_uniform. Qed.
+Print Assumptions fill_lookup_uniform_across_layouts.
+
 (** the generated constants / loop headers the models' case analyses rely on *)
 Theorem generated_skeleton_as_modelled :
   (MCACHE_DIRTY = 1 /\ MCACHE_PINNED = 2 /\ Z.land MCACHE_DIRTY MCACHE_PINNED = 0 /\
